@@ -71,10 +71,24 @@ class Codec:
         Raises:
             EncodingError: when failed MsgSeqNum conditions for some types of messages
         """
+        msg_type = msg.msg_type
+
+        # Message fields first: if one of them can't be encoded the MsgSeqNum
+        #   must not be allocated (a failed send doesn't consume a number)
+        msg_fields = []
+        for t in msg.tags:
+            if t in {
+                FTag.MsgSeqNum,
+                FTag.SendingTime,
+                FTag.SenderCompID,
+                FTag.TargetCompID,
+            }:
+                continue
+            self._addTag(msg_fields, t, msg)
+        (str(msg_type) + self.SOH.join(msg_fields)).encode(encoding)
+
         # Create body
         body = []
-
-        msg_type = msg.msg_type
 
         body.append("%s=%s" % (FTag.SenderCompID, session.sender_comp_id))
         body.append("%s=%s" % (FTag.TargetCompID, session.target_comp_id))
@@ -104,16 +118,7 @@ class Codec:
 
         body.append("%s=%s" % (FTag.MsgSeqNum, seq_no))
         body.append("%s=%s" % (FTag.SendingTime, self.current_datetime()))
-
-        for t in msg.tags:
-            if t in {
-                FTag.MsgSeqNum,
-                FTag.SendingTime,
-                FTag.SenderCompID,
-                FTag.TargetCompID,
-            }:
-                continue
-            self._addTag(body, t, msg)
+        body.extend(msg_fields)
 
         # Enable easy change when debugging
         SEP = self.SOH
